@@ -34,6 +34,17 @@ class TagAntenna(pyrex.Antenna):
         return int(round(signal.values[0])) % 2 == 1
 
 
+class LazyNoiseAntenna(TagAntenna):
+    """like a real noisy antenna, its noise master appears only when a waveform is first computed (the noise itself is zero,
+    so waveforms stay exact); the basis the file must then hold is the stub's"""
+    stub = None
+
+    def make_noise(self, times):
+        if self._noise_master is None:
+            self._noise_master = NoiseStub(*self.stub)
+        return pyrex.Signal(times, np.zeros(len(times)), value_type=pyrex.Signal.Type.voltage)
+
+
 class NoiseStub:
     def __init__(self, k, a):
         self.freqs = np.array([float(k), float(a), 7.0])
@@ -120,7 +131,7 @@ def extra(p):
     return p['form'] in ('dictx', 'dictl', 'dictshort')
 
 
-def expected_event(c, k, p):
+def expected_event(c, k, p, lazy=False):
     """what reading back the event of the k-th add must give (None = nothing recorded)"""
     e = {}
     e['particles'] = [particle_obs(x) for x in make_event(k, p)] if gate(c, 'particles', p) else None
@@ -146,6 +157,11 @@ def expected_event(c, k, p):
     else:
         e['rays'] = None
     e['noise'] = [[float(k), float(a), 7.0] for a in range(N_ANT)] if gate(c, 'noise', p) else None
+    if lazy and e['noise'] is not None:
+        # the basis exists only for antennas whose waveforms were computed for this event -- by the writer itself when it stores
+        # waveforms or per-antenna / extra triggers -- and then it must be in the file (D41: it was written before it existed)
+        computed = gate(c, 'waveforms', p) or (gate(c, 'triggers', p) and (gate(c, 'antenna_triggers', p) or extra(p)))
+        e['noise'] = [row if (computed and n_waves(p, a, k) > 0) else [] for a, row in enumerate(e['noise'])]
     if gate(c, 'waveforms', p):
         e['waveforms'] = [[float(wtag(k, j, a)) if j < n_waves(p, a, k) else None for a in range(N_ANT)]
                           for j in range(p['nw'])]
@@ -290,6 +306,8 @@ class H5Driver:
         self.dir = os.path.join(VERIF, '.work', tag, 'files_%d' % os.getpid())
         self.writer = None
         self.nsteps = 0
+        self.lazy = False
+        self.nbeh = 0
 
     def stats(self):
         st = {'reader_access_paths_checked': self.paths_checked, 'file_generator_runs': self.gen_runs,
@@ -317,7 +335,13 @@ class H5Driver:
         os.makedirs(self.dir, exist_ok=True)
         self.c = st['c']
         self.path = os.path.join(self.dir, 'f.h5')
-        self.det = [TagAntenna(position=(10.0 * a, 0.0, -100.0 - a), noisy=False) for a in range(N_ANT)]
+        self.nbeh += 1
+        self.lazy = self.nbeh % 2 == 0          # every other behaviour with antennas whose noise master is created lazily
+        if self.lazy:
+            self.det = [LazyNoiseAntenna(position=(10.0 * a, 0.0, -100.0 - a), freq_range=(0.1, 0.4), noise_rms=1.0, noisy=True)
+                        for a in range(N_ANT)]
+        else:
+            self.det = [TagAntenna(position=(10.0 * a, 0.0, -100.0 - a), noisy=False) for a in range(N_ANT)]
         self.writer = File(self.path, 'w', **self._options())
         self.writer.open()
         self.writer.set_detector(self.det)
@@ -344,8 +368,11 @@ class H5Driver:
         k, p = last['k'], last['p']
         event = BadEvent(p['np']) if p['pbad'] else make_event(k, p)
         for a, ant in enumerate(self.det):
-            ant.clear()
-            ant._noise_master = NoiseStub(k, a)
+            ant.clear(reset_noise=True)
+            if self.lazy:
+                ant.stub = (k, a)
+            else:
+                ant._noise_master = NoiseStub(k, a)
             for j in range(n_waves(p, a, k)):
                 t = np.arange(4) * 1e-9 + j * 1e-6
                 ant.signals.append(pyrex.Signal(t, [float(wtag(k, j, a)), 1.0, -1.0, 0.5]))
@@ -380,7 +407,7 @@ class H5Driver:
         """read the file back (through a flushed copy while the writer is open)"""
         self.nsteps += 1
         acc = st['acc']
-        exp = [expected_event(self.c, a['k'], a['p']) for a in acc]
+        exp = [expected_event(self.c, a['k'], a['p'], self.lazy) for a in acc]
         is_open = self.writer is not None and self.writer.is_open
         if is_open:
             self.writer['/'].file.flush()
